@@ -167,4 +167,65 @@ func init() {
 	n := copy(buf, head)
 	copy(buf[n:], p.Body)
 	return buf, nil`}}})
+	addMutant(Mutant{Name: "benign-session-id-octet-literal", Benign: true, Props: []string{"C01", "C02", "C03", "C04", "C06"},
+		Why: "the session id is serialised as an octet literal, most significant octet first, instead of PutUint32",
+		Edits: []Edit{{File: "header_fields.go", Old: `	sb := make([]byte, 4)
+	binary.BigEndian.PutUint32(sb, uint32(*s))
+	return sb, nil`, New: `	id := uint32(*s)
+	return []byte{byte(id >> 24), byte(id >> 16), byte(id >> 8), byte(id)}, nil`}}})
+	addMutant(Mutant{Name: "benign-lookup-split-into-check-and-locked-part", Benign: true, Props: []string{"C05", "C06", "C07", "C08", "C09", "C14", "C15", "C20"},
+		Why: "the session lookup is split: the sequence check stays, the locked table access moves to a helper that is tail-called",
+		Edits: []Edit{{File: "sessions.go", Old: `		return nil, fmt.Errorf("sessionID [%v] sequence number is corrupted; %v", h.SessionID, err)
+	}
+	s.Lock()
+	defer s.Unlock()
+	sc, ok := s.known[h.SessionID]`, New: `		return nil, fmt.Errorf("sessionID [%v] sequence number is corrupted; %v", h.SessionID, err)
+	}
+	return s.lookupLocked(h)
+}
+
+// lookupLocked finds the handler left for the session named in h
+func (s *sessions) lookupLocked(h Header) (Handler, error) {
+	s.Lock()
+	defer s.Unlock()
+	sc, ok := s.known[h.SessionID]`}}})
+	addMutant(Mutant{Name: "benign-size-test-written-the-other-way", Benign: true, Props: []string{"C01", "C04", "C07", "C19"},
+		Why: "the accounting reply decoder tests for equal sizes first and validates in that branch",
+		Edits: []Edit{{File: "accounting.go", Old: `	if a.Len() != serverMsgLen+dataLen {
+		return NewBadSecretErr("bad secret detected acctreply")
+	}
+	// validate
+	if err := a.Validate(); err != nil {
+		return err
+	}
+	return nil`, New: `	if a.Len() == serverMsgLen+dataLen {
+		return a.Validate()
+	}
+	return NewBadSecretErr("bad secret detected acctreply")`}}})
+	addMutant(Mutant{Name: "benign-reader-single-frame-buffer", Benign: true, Props: []string{"C04", "C05", "C14", "C19"},
+		Why: "the stream reader reads the body into one buffer behind a copy of the header bytes",
+		Edits: []Edit{{File: "crypt.go", Old: `	b := make([]byte, int(s))
+	if _, err := io.ReadFull(c.Reader, b); err != nil {
+		crypterReadError.Inc()
+		return nil, err
+	}
+
+	var p Packet
+	err := Unmarshal(append(h, b...), &p)`, New: `	frame := make([]byte, MaxHeaderLength+int(s))
+	copy(frame, h)
+	if _, err := io.ReadFull(c.Reader, frame[MaxHeaderLength:]); err != nil {
+		crypterReadError.Inc()
+		return nil, err
+	}
+
+	var p Packet
+	err := Unmarshal(frame, &p)`}}})
+	addMutant(Mutant{Name: "benign-hash-inputs-from-a-fixed-list", Benign: true, Props: []string{"C03", "C04", "C06"},
+		Why: "the four fixed hash inputs are written from an array literal in a loop",
+		Edits: []Edit{{File: "crypt.go", Old: `		h.Write(sessionID)
+		h.Write(secret)
+		h.Write(version)
+		h.Write(seqNo)`, New: `		for _, part := range [...][]byte{sessionID, secret, version, seqNo} {
+			h.Write(part)
+		}`}}})
 }
